@@ -111,3 +111,48 @@ def transform_tree(root: str, kind: str) -> int:
                 compile(src, p, "exec")
                 open(p, "w", encoding="utf-8").write(src)
     return T.n
+
+
+# ---------------------------------------------------------------------------------------------------------------------------------
+# rename-private: every private function and private class of rope that a rule mentions BY NAME gets another name, consistently in the
+# whole tree.  The rules must decide the same: the index recognises a renamed private function / class by its shape (sa/anchors.json,
+# core.Index._canonicalise_renamed_anchors).
+
+def names_mentioned_by_rules() -> set:
+    """private function and class names of rope that occur as (part of) a string literal of the rule modules"""
+    import glob, json, os, re
+    here = os.path.dirname(os.path.abspath(__file__))
+    pinned = json.load(open(os.path.join(here, "anchors.json")))
+    known = {n for owner, names in pinned.items() if owner != "<classes>" for n in names} | {n for names in pinned.get("<classes>", {}).values() for n in names}
+    out = set()
+    for p in glob.glob(os.path.join(here, "rules", "*.py")) + glob.glob(os.path.join(here, "*.py")):
+        if os.path.basename(p) in ("astmut.py", "transforms.py"):
+            continue
+        for c in ast.walk(ast.parse(open(p, encoding="utf-8").read())):
+            if isinstance(c, ast.Constant) and isinstance(c.value, str) and len(c.value) < 200 and re.fullmatch(r"[A-Za-z_][\w.]*", c.value.strip()):
+                out |= {part for part in c.value.strip().split(".") if part in known}
+    return out
+
+
+def rename_private_tree(root: str, suffix: str = "_rn") -> int:
+    import os
+    names = names_mentioned_by_rules()
+    n = 0
+    for d, _, fs in os.walk(os.path.join(root, "rope")):
+        for f in fs:
+            if not f.endswith(".py"):
+                continue
+            p = os.path.join(d, f)
+            t = ast.parse(open(p, encoding="utf-8").read())
+            for x in ast.walk(t):
+                if isinstance(x, (ast.FunctionDef, ast.AsyncFunctionDef, ast.ClassDef)) and x.name in names:
+                    x.name += suffix
+                    n += 1
+                elif isinstance(x, ast.Attribute) and x.attr in names:
+                    x.attr += suffix
+                elif isinstance(x, ast.Name) and x.id in names:
+                    x.id += suffix
+            src = ast.unparse(t) + "\n"
+            compile(src, p, "exec")
+            open(p, "w", encoding="utf-8").write(src)
+    return n
